@@ -356,10 +356,16 @@ def main():
 
     # ---- search for a concrete failing input when something broke but none is at hand -----
     searched = 0
-    if (broken or disagreements) and not oracle_fail and harness_ok and driver_ok and not args.replay:
+    known = load_known(pid)
+
+    def unlisted(fails):
+        return [r for r in fails if not any(match_known(e, r["req"], r["impl"], r["oracle"]) for e in known)]
+
+    # (oracle failures that are listed known findings do not count as "a failing input at hand")
+    if (broken or disagreements) and not unlisted(oracle_fail) and harness_ok and driver_ok and not args.replay:
         budget_end = time.time() + (240 if tier == "quick" else 1200)
         k = 0
-        while time.time() < budget_end and k < 6 and not oracle_fail:
+        while time.time() < budget_end and k < 6 and not unlisted(oracle_fail):
             k += 1
             sw = os.path.join(work, f"search{k}")
             os.makedirs(sw, exist_ok=True)
@@ -368,14 +374,13 @@ def main():
             if res:
                 searched += len(res)
                 d2, o2 = classify(res)
-                oracle_fail = o2
+                oracle_fail = oracle_fail + o2
                 if not disagreements:
                     disagreements = d2
             shutil.rmtree(sw, ignore_errors=True)
         notes.append(f"search for a failing input: {searched} further cases")
 
     # ---- 6. decision ---------------------------------------------------------------------
-    known = load_known(pid)
     known_hit = {}
     unknown_fail = []
     for r in oracle_fail:
